@@ -563,6 +563,14 @@ def run(ctx):
     from pv.gen import num
 
     warnings.filterwarnings("ignore")
+    # keep a complete list of violation mechanisms in evidence (the bus stores only the first witnesses)
+    _orig_violation = ctx.violation
+
+    def _violation(monitor, message, case=None, mech=None, observed=None, expected=None):
+        ctx.note_add("violation_mechs", f"{monitor}|{mech}", cap=150)
+        ctx.count(f"violations.{mech}")
+        return _orig_violation(monitor, message, case=case, mech=mech, observed=observed, expected=expected)
+    ctx.violation = _violation
     TOL = 1e-9
     N = ctx.n(3000, 24000)
     indices = range(ctx.shard, N * ctx.nshards, ctx.nshards)
